@@ -1053,6 +1053,15 @@ def _interp_actions(fr):
                     fr['cookie'] = value
                     fr['w_req_cookies'] = None
                     fr['signed'] = False
+        elif kind == 'req_set_odd_key':
+            # an environ assignment with a key that is not a str: what it does to THIS request is not prescribed (noted,
+            # compared with the same call served alone); what it must not do is disturb other requests
+            try:
+                app.request[b'HTTP_X_TRACE'] = fr['tok']
+                outcome = 'accepted'
+            except Exception as e:  # noqa
+                outcome = 'raises ' + type(e).__name__
+            fr['log'].append(dict(kind='note', tok=fr['tok'], where='odd key', got=dict(outcome=outcome)))
         elif kind == 'req_del':
             if not fr.get('readonly'):
                 key = 'x.tmp.' + fr['tok']
@@ -2064,6 +2073,8 @@ def gen_api_actions(rng, tok, has_form=False, readonly=False):
         if key == 'QUERY_STRING' and rng.random() < 0.3:
             return [['req_set', key, 'q=%sq' % tok], ['see']]        # the value it has already: nothing changes
         return [['see'], ['req_set', key, val], ['see']]
+    if r < 0.74:
+        return [['req_set_odd_key'], ['see']]
     if r < 0.78:
         return [['req_del'], ['see']]
     if r < 0.88:
